@@ -13,12 +13,22 @@ import sys, json, gc, itertools
 
 
 def churn(imath):
-    """reuse freed memory so that a dangling view is likely to read something else"""
-    junk = [imath.IntArray(8) for _ in range(64)]
-    for j in junk:
-        for i in range(8):
-            j[i] = -12345
-    junk2 = [imath.FloatArray(3) for _ in range(64)]
+    """reuse freed memory so that a dangling view is likely to read something else: fresh objects of the sizes the
+    scenarios free (8-int arrays, 3x8 matrices of every matrix class, 24- and 48-element arrays, float arrays)"""
+    junk = []
+    for n in (8, 3, 6, 12, 24, 48):
+        for _ in range(64 if n == 8 else 24):
+            j = imath.IntArray(n)
+            for i in range(n):
+                j[i] = -12345
+            junk.append(j)
+    for mc in ("IntMatrix", "FloatMatrix", "DoubleMatrix"):
+        for _ in range(24):
+            m = getattr(imath, mc)(3, 8)
+            for i in range(3):
+                m[i] = -12345
+            junk.append(m)
+    junk2 = [imath.FloatArray(3) for _ in range(64)] + [imath.DoubleArray(24) for _ in range(16)]
     return junk, junk2
 
 
@@ -51,8 +61,8 @@ def scenarios(imath):
         return [("owner", a, rd), ("elemref", e, lambda o: [int(o.x), int(o.y), int(o.z)]),
                 ("component", x, lambda o: [int(o[i]) for i in range(len(o))])]
 
-    def s_matrix():
-        m = imath.IntMatrix(3, 8)
+    def s_matrix(cls="IntMatrix"):
+        m = getattr(imath, cls)(3, 8)
         for i in range(3):
             r = m[i]
             for j in range(8):
@@ -60,8 +70,8 @@ def scenarios(imath):
         del r
         row = m[1]
         sub = m[0:2]
-        rdm = lambda o: [o[i][j] for i in range(o.rows()) for j in range(o.columns())]
-        return [("owner", m, rdm), ("row", row, lambda o: [o[j] for j in range(len(o))]), ("slice", sub, rdm)]
+        rdm = lambda o: [int(o[i][j]) for i in range(o.rows()) for j in range(o.columns())]
+        return [("owner", m, rdm), ("row", row, lambda o: [int(o[j]) for j in range(len(o))]), ("slice", sub, rdm)]
 
     def s_varray():
         va = imath.VIntArray(3)
@@ -114,11 +124,12 @@ def scenarios(imath):
         rd = lambda o: [o.item(i, j) for j in range(o.size()[1]) for i in range(o.size()[0])]
         return [("owner", a, rd), ("slice", b, rd), ("copy", c, rd)]
 
-    return {"mask": s_mask, "elem": s_elem, "matrix": s_matrix, "varray": s_varray, "buffer": s_buffer,
+    return {"mask": s_mask, "elem": s_elem, "matrix": s_matrix, "matrixf": lambda: s_matrix("FloatMatrix"),
+            "matrixd": lambda: s_matrix("DoubleMatrix"), "varray": s_varray, "buffer": s_buffer,
             "string": s_string, "array2d": s_2d}
 
 
-SIZES = {"mask": 5, "elem": 3, "matrix": 3, "varray": 4, "buffer": 4, "string": 3, "array2d": 3}
+SIZES = {"mask": 5, "elem": 3, "matrix": 3, "matrixf": 3, "matrixd": 3, "varray": 4, "buffer": 4, "string": 3, "array2d": 3}
 
 
 def main():
